@@ -145,7 +145,8 @@ ADDENDA = {
            'classified alias / copy / fresh, every in-place mutation, every row handed to a writer; the select / update / except expression texts come from the real shallow_parse_input_query / translate_* functions): generated obligation C06_generated_row_flows_pass_check '
            '(decide +kernel), whose meaning is C06_row_flow_sound: a heap machine in which rows are references; if the may-alias check passes then NO program made of the flow\'s statements, in any order and number, modifies an object of the caller\'s tables or hands one to a writer; '
            'C06_row_flow_check_monotone (deleting statements cannot break it); counterexample theorems (UPDATE without the copy; out_fields aliasing the record) exhibit the mutated / leaked input object. D21 (CSV writers normalised nested lists of the input table in place) found and fixed. ',
-    'C07': 'PYTHON AST ROUTE MODELLED (Model/PyAst.lean: column_info_from_node, the breadth-first alias search, the Tuple / error-code logic, over the tree the REAL parser builds; C07_py_one_info_per_item, C07_py_simple_roots_are_not_aliases, C07_py_alias_decided_by_first_call, C07_py_alias_search_is_breadth_first). '
+    'C07': 'THE TWO ROUTES AGREE KIND BY KIND: C07_py_js_agree_by_kind (pyColumnInfo of the parse tree = colInfoOfSpan of the text for aN, a[N], a.name, identifiers, star markers, a["name"], expr AS name), C07_py_kinds, C07_py_walk_first_three, C07_py_js_placeholder_name_differs (the one real difference). '
+           'PYTHON AST ROUTE MODELLED (Model/PyAst.lean: column_info_from_node, the breadth-first alias search, the Tuple / error-code logic, over the tree the REAL parser builds; C07_py_one_info_per_item, C07_py_simple_roots_are_not_aliases, C07_py_alias_decided_by_first_call, C07_py_alias_search_is_breadth_first). '
            'TEXT-TO-COLUMN-INFO (the rbql-js header parser is modelled in Model/Translate.lean and tied on every string of length <= 5 over {a 1 [ ] ( , space}; the Python ast route is compared with it on generated select lists): '
            'C07_root_spans_exact (one span per item for bracket-balanced items without a top-level comma; (rootSpans s).isOk = Balanced s), C07_span_kinds (aN, a[N], a.name, bare identifiers, star markers, a[literal], `expr AS name` for EVERY expr), '
            'C07_span_info_sound (inversion: a non-null info correctly names its column - the guarantee stated in the source comment), C07_unquote_escaped_full (unquote_string undoes js_string_escape_column_name for EVERY name, after the repair D20), '
@@ -163,7 +164,7 @@ ADDENDA = {
            'C04_record_numbers_swapped_counterexample (`bNR == NR` is refused), C04_ambiguous_key_refused, C04_resolved_key_lists_have_equal_length (one entry per pair, in order: the join well-formedness hypothesis of the rbql.js refinement holds for every parsed query). ',
     'C08': 'JAVASCRIPT PORT: the rbql.js literal scanner is modelled (separateLiteralsJs) and tied on every string of length <= 7 over {\' " \\ a `}; C08_js_literals_reassemble, C08_js_literal_closes_after_escaped_backslash (regression theorem of defect D23, fixed: '
            '`\'a\\\\\' where …` swallowed the next clause), C08_js_literals_extracted, C08_js_literal_contents_opaque(_for_the_parse), C08_js_agrees_with_python_on_common_literals, counterexamples for every side condition and for the real differences (back-ticks, line feeds, triple quotes). ',
-    'C13': 'JOIN TABLE NAMES: find_table_path modelled over an abstract file system (Model/TablePath.lean; C13_table_path_exists, C13_table_path_is_a_candidate, C13_table_path_prefers_the_name_itself) and tied to the real function over real directory trees. '
+    'C13': 'USER INIT CODE through query_table, query_csv (explicit and ~/.rbql_init_source.py) and the command line (--init-source-file and the default file). JOIN TABLE NAMES: find_table_path modelled over an abstract file system (Model/TablePath.lean; C13_table_path_exists, C13_table_path_is_a_candidate, C13_table_path_prefers_the_name_itself) and tied to the real function over real directory trees. '
            'FRONT DOOR OF THE COMMAND LINE modelled (Model/Cli.lean cliDoor: --version / --color / --output / --policy / --delim / --query) and tied on all 800 combinations to the real process '
            '(refusals = Error [generic] on stderr, exit 1, empty stdout; a run = byte for byte what query_csv writes for the dialect the model names): C13_cli_runs_iff, C13_cli_noninteractive_runs_or_refuses, C13_cli_run_dialect, C13_cli_monocolumn_needs_no_delim. '
            'ENCODINGS ON THE COMMAND LINE: non-ASCII tables under --encoding utf-8 / latin-1 x PYTHONIOENCODING x {file->file, file->stdout, stdin->stdout}: the bytes written are the query_table result in the requested encoding; LONE-STAR JOIN battery through every entry point. '
